@@ -16,6 +16,9 @@ import (
 	"math/rand"
 	"strconv"
 	"strings"
+	"sync"
+	"testing/synctest"
+	"time"
 
 	"github.com/hashicorp/raft"
 )
@@ -27,6 +30,83 @@ type replTrans struct {
 	count  int
 	faults map[int][2]int
 	trace  []string
+	pipe   *replPipe // pipeline mode only
+}
+
+// replPipe is the transport's pipeline in pipeline mode: a send only queues the request; the
+// engine's root goroutine delivers queued requests to the follower one at a time (so that several
+// can be in flight, as on a real connection) and hands the answer to the leader's decoder.  A
+// delivery that gets no answer breaks the pipe: the next send fails, as on a closed connection.
+type replPipe struct {
+	t      *replTrans
+	ch     chan raft.AppendFuture
+	mu     sync.Mutex
+	closed bool
+	flight []*replFut
+	sent   int
+}
+
+type replFut struct {
+	req   *raft.AppendEntriesRequest
+	resp  *raft.AppendEntriesResponse
+	start time.Time
+}
+
+func (f *replFut) Error() error                         { return nil }
+func (f *replFut) Start() time.Time                     { return f.start }
+func (f *replFut) Request() *raft.AppendEntriesRequest  { return f.req }
+func (f *replFut) Response() *raft.AppendEntriesResponse { return f.resp }
+
+func (p *replPipe) AppendEntries(req *raft.AppendEntriesRequest, resp *raft.AppendEntriesResponse) (raft.AppendFuture, error) {
+	p.mu.Lock()
+	defer p.mu.Unlock()
+	if p.closed || p.sent >= p.t.fuel {
+		return nil, raft.ErrPipelineShutdown
+	}
+	p.sent++
+	f := &replFut{req, resp, time.Now()}
+	p.flight = append(p.flight, f)
+	return f, nil
+}
+func (p *replPipe) Consumer() <-chan raft.AppendFuture { return p.ch }
+func (p *replPipe) Close() error {
+	p.mu.Lock()
+	p.closed = true
+	p.mu.Unlock()
+	return nil
+}
+func (p *replPipe) inFlight() int {
+	p.mu.Lock()
+	defer p.mu.Unlock()
+	return len(p.flight)
+}
+
+// deliverOne hands the oldest queued request to the follower (unless the pipe is closed: then it is lost)
+func (p *replPipe) deliverOne() {
+	p.mu.Lock()
+	if len(p.flight) == 0 {
+		p.mu.Unlock()
+		return
+	}
+	f := p.flight[0]
+	p.flight = p.flight[1:]
+	closed := p.closed
+	p.mu.Unlock()
+	if closed {
+		return
+	}
+	if err := p.t.AppendEntries("", "", f.req, f.resp); err != nil {
+		_ = p.Close()
+		return
+	}
+	p.ch <- f
+}
+
+func (t *replTrans) AppendEntriesPipeline(raft.ServerID, raft.ServerAddress) (raft.AppendPipeline, error) {
+	if t.pipe == nil {
+		return nil, raft.ErrPipelineReplicationNotSupported
+	}
+	return t.pipe, nil
 }
 
 func atoiB(b []byte) int { n, _ := strconv.Atoi(string(b)); return n }
@@ -258,16 +338,50 @@ func runCatchupCase(rng *rand.Rand, thorough bool, out *bufio.Writer, st *stats,
 	F.start()
 	fObs = F.obs(false, "n")
 	end := "E 0 0 0 0 0 0"
-	if !L.dead && !F.dead {
-		res := L.r.VerifReplicateTo(raft.Server{Suffrage: raft.Voter, ID: "2", Address: "12"}, uint64(next), uint64(last))
+	// pipeline mode: pipelineReplicate instead of replicateTo, with sends (0) and deliveries (1)
+	// in an order of the generator's choosing; whatever is still in flight is delivered at the end
+	var ops []int
+	pipeMode := rng.Intn(3) == 0
+	if pipeMode {
+		last = n
+		if rng.Intn(2) == 0 {
+			next = k + 1 // where a catch-up would have left it
+		}
+		for i, m := 0, 1+rng.Intn(8); i < m; i++ {
+			ops = append(ops, b2i(rng.Intn(5) < 2))
+		}
+		tr.pipe = &replPipe{t: tr, ch: make(chan raft.AppendFuture, 64)}
+	}
+	peer := raft.Server{Suffrage: raft.Voter, ID: "2", Address: "12"}
+	if !L.dead && !F.dead && !pipeMode {
+		res := L.r.VerifReplicateTo(peer, uint64(next), uint64(last))
 		end = fmt.Sprintf("E %d %d %d %d %d %d", res.NextIndex, res.MatchIndex, res.Failures, b2i(res.AllowPipeline), b2i(res.StepDown), b2i(res.ShouldStop))
+	}
+	if !L.dead && !F.dead && pipeMode {
+		pl := L.r.VerifStartPipeline(peer, uint64(next))
+		synctest.Wait()
+		for _, op := range ops {
+			if op == 0 {
+				pl.Trigger()
+			} else {
+				tr.pipe.deliverOne()
+			}
+			synctest.Wait()
+		}
+		for tr.pipe.inFlight() > 0 {
+			tr.pipe.deliverOne()
+			synctest.Wait()
+		}
+		over := !pl.Running()
+		res := pl.Stop()
+		end = fmt.Sprintf("E %d %d %d %d %d %d", res.NextIndex, res.MatchIndex, res.Failures, b2i(res.AllowPipeline), b2i(res.StepDown), b2i(over))
 	}
 	L.stop()
 	F.stop()
 
-	caseLine := fmt.Sprintf("CU LCF %d %d %d %d %d LDU %s FCF %d %d %d %d %d FDU %s NX %d %d FU %d FT %d %s",
+	caseLine := fmt.Sprintf("CU LCF %d %d %d %d %d LDU %s FCF %d %d %d %d %d FDU %s NX %d %d FU %d FT %d %s PL %d %d %s",
 		b2i(L.mono), b2i(L.restoreC), L.trailing, L.maxAE, 0, lDur, b2i(F.mono), b2i(F.restoreC), F.trailing, F.maxAE, 0, fDur,
-		next, last, fuel, len(ftTok), strings.Join(ftTok, " "))
+		next, last, fuel, len(ftTok), strings.Join(ftTok, " "), b2i(pipeMode), len(ops), intsJoin(ops))
 	caseLine = strings.Join(strings.Fields(caseLine), " ")
 	implLine := strings.Join(strings.Fields(fmt.Sprintf("%s %s T %d %s %s", lObs, fObs, len(tr.trace), strings.Join(tr.trace, " "), end)), " ")
 	fmt.Fprintln(out, caseLine)
@@ -306,6 +420,15 @@ func runCatchupCase(rng *rand.Rand, thorough bool, out *bufio.Writer, st *stats,
 	}
 	if len(faults) > 0 {
 		st.Hist["follower-fault-armed"]++
+	}
+	if pipeMode {
+		st.Hist["pipeline-mode"]++
+		if aes > okAE {
+			st.Hist["pipeline-mode,append-refused"]++
+		}
+		if strings.HasSuffix(end, " 1") {
+			st.Hist["pipeline-mode,ended-by-itself"]++
+		}
 	}
 	if fCur > lCur {
 		st.Hist["leader-stale"]++
